@@ -301,3 +301,40 @@ package media
 //@   assert[call:Pop] !c.closed
 //@   ensures ghostInt(old(c.consumer), "closes") == old(ghostInt(c.consumer, "closes")) + 1
 //@   ensures c.stream == nil && c.consumer == old(c.consumer)
+
+// ---- C05: lookups never change the registry ------------------------------------------------------------------------------
+// Get returns what the registry holds under the canonical path; GetOrCreate returns that entry when there is one and
+// otherwise asks the pull factories - it NEVER writes the registry itself: a pulled stream registers itself when its
+// puller starts and unregisters itself when it ends (a lookup that registered the stream a second time could re-insert
+// one that is already closed)
+//@ import "github.com/cnotch/ipchub/utils"
+//@ import "github.com/cnotch/ipchub/provider/route"
+//@ global psFactories readonly
+//@ spec func canon(p string) string = uninterpreted
+//@ extern func utils.CanonicalPath(p string) (r string)
+//@   modifies
+//@   ensures sameStr(r, canon(p))
+//@ extern func route.Match(path string) (r *route.Route)
+//@   modifies
+//@ extern func (f PullStreamFactory) Can(remoteURL string) (b bool)
+//@   modifies
+//@ extern func (f PullStreamFactory) Create(localPath string, remoteURL string) (s *Stream, err error)
+//@   modifies ghostAll("misc")
+//@   ensures err == nil ==> s != nil
+//@ extern func xlog.Errorf(format string, args ...interface{}) ()
+//@   modifies
+//@ extern func (e error) Error() (s string)
+//@   modifies
+//@ func Get(path string) (s *Stream)
+//@   requires mapAt(&streams, canon(path)) != nil ==> typeIs(mapAt(&streams, canon(path)), "*Stream")
+//@   modifies
+//@   ensures mapAt(&streams, canon(path)) == nil ==> s == nil
+//@   ensures mapAt(&streams, canon(path)) != nil ==> s == mapAt(&streams, canon(path)).(*Stream)
+//@ func GetOrCreate(path string) (s *Stream)
+//@   requires mapAt(&streams, canon(path)) != nil ==> typeIs(mapAt(&streams, canon(path)), "*Stream") && mapAt(&streams, canon(path)).(*Stream) != nil
+//@   requires forall(i, 0, len(psFactories), psFactories[i] != nil)
+//@   modifies ghostAll("misc"), ghostAll("closeTasks")
+//@   local rangeindex int
+//@   loop 0: modifies ghostAll("misc"), ghostAll("closeTasks")
+//@   loop 0: invariant -1 <= rangeindex && rangeindex <= len(psFactories)
+//@   ensures old(mapAt(&streams, canon(path))) != nil ==> s == old(mapAt(&streams, canon(path))).(*Stream)
